@@ -93,6 +93,12 @@ theorem split4_lines (l1 l2 l3 : Txt) (rest : List Txt) (h1 : '\n' ∉ l1) (h2 :
 /-- numerals of a file that is read back as a whole: additionally without `<` (no `<exists>` inside a number) -/
 def FNumeral (n : Txt) : Prop := KNumeral n ∧ '=' ∉ n ∧ '<' ∉ n
 
+theorem FNumeral.of_lit {n : Txt} (h : Lit n) : FNumeral n :=
+  ⟨.of_lit h, h.not_mem '=' (by decide), h.not_mem '<' (by decide)⟩
+/-- `FNumeral` is exactly `Lit`: any string `float()` accepts and `strip()` leaves alone — every character
+condition is a consequence (`fclass_chars`) -/
+theorem fnumeral_iff (n : Txt) : FNumeral n ↔ Lit n := ⟨fun h => h.1.1.lit, FNumeral.of_lit⟩
+
 /-- `_getSectionHeader` on a slice that is a top-level section `name? <exists>⏎xmin = a⏎xmax = b⏎rest…` -/
 theorem getSectionHeader_section (data : Txt) (idx : List Int) (j : Nat) (a b : Int) (ha : idx[j]? = some a)
     (hb : idx[j + 1]? = some b) (name xa xb : Txt) (rest : List Txt)
@@ -160,7 +166,7 @@ theorem buildEntries_tier (p : PT) (hpts : ∀ q ∈ p.pts, Numeral q.1 ∧ Nume
       rw [e, afterEq_row _ _ (by decide) (eq_not_mem_natDec _) (natDec_stripped _) (by rw [hfc]; rfl)]
       simp only [bind, Except.bind, hfc, hlen, if_false, if_true]
       rw [← hrows]
-      exact processSectionData_written [] (by simp) p.pts hpts
+      exact processSectionData_written [] (by simp) p.pts (fun q hq => ⟨(hpts q hq).1.lit, (hpts q hq).2.lit⟩)
 
 /-! ## rows without `<` -/
 
@@ -230,6 +236,8 @@ structure ContOk (name : Txt) (span : Option (Txt × Txt)) (its : List IT) : Pro
   name : name ∈ containerNames
   span : ∃ a b, span = some (a, b) ∧ FNumeral a ∧ FNumeral b
   shape : Shape2 its
+  /-- the intermediate tiers stand in Praat's order, the order the reader returns (`container_roundtrip_anyorder`) -/
+  order : (its.map (·.name)).Sublist canon
   ne : its ≠ []
   lt : ∀ i ∈ its, ∀ p ∈ i.subs, '<' ∉ p.xmin ∧ '<' ∉ p.xmax ∧ ∀ q ∈ p.pts, '<' ∉ q.1 ∧ '<' ∉ q.2
 
@@ -750,7 +758,7 @@ theorem sectionLoop_secs (xmin xmax : Txt) (secs : List WSec) (hok : ∀ w ∈ s
       have a2 : '\n' ∉ t "xmin = " := by decide
       have a3 : '\n' ∉ t "xmax = " := by decide
       rw [containerSection_eq n xa xb its hc.ne,
-        container_roundtrip _ _ _ (by simp [f1, a1]) (by simp [a2, hxa.1.1.2.2]) (by simp [a3, hxb.1.1.2.2]) its hc.shape]
+        container_roundtrip _ _ _ (by simp [f1, a1]) (by simp [a2, hxa.1.1.2.2]) (by simp [a3, hxb.1.1.2.2]) its hc.shape hc.order]
       simp only [pure, Except.pure]
       have hnew' : ((done.map (·.sec)).map Sec.name).contains n = false := hnew
       simp only [hnew', Bool.false_eq_true, if_false, spanless_false its hc.ne hc.shape.nonempty, Bool.false_and]
@@ -789,7 +797,10 @@ end Read
 open Read in
 /-- **(e), reader on a whole file** — `_openNormalKlattgrid` applied to a file in the writer's layout
 (`fileLines`: header, span rows, then for every section its rows) returns exactly the sections, in order,
-with their names, spans and point numerals, and for every container its intermediate and sub tiers. -/
+with their names, spans and point numerals, and for every container its intermediate and sub tiers.
+`ReadOk` follows from the plain-terms hypothesis `KlattOk` of `Props/C19Whole.lean` (`KlattOk.readOk`): its
+numeral conditions (`FNumeral`) say no more than "`float()` accepts it, `strip()` leaves it alone"
+(`fnumeral_iff`); what it asks of names and structure is audited there, field by field. -/
 theorem openNormal_layout (xmin xmax : Txt) (secs : List WSec) (h : Read.ReadOk xmin xmax secs) :
     openNormal (join ['\n'] (fileLines xmin xmax secs) ++ ['\n']) = .ok (secs.map (·.sec)) := by
   obtain ⟨wp, hwp, lp, hlp, ap, bp, hpts⟩ := Read.points_row xmin xmax secs h
@@ -890,8 +901,11 @@ theorem contOk_clean (n : Txt) (span : Option (Txt × Txt)) (its : List IT) (h :
     ContOk n span (its.map cleanIT) := by
   have hnames : (its.map cleanIT).map (·.name) = its.map (·.name) := by
     simp [List.map_map, Function.comp_def, cleanIT]
-  refine ⟨h.name, h.span, ⟨⟨?_, ?_⟩, ?_, ?_, ?_⟩, by simpa using h.ne, ?_⟩
-  · rw [hnames]; exact h.shape.names
+  refine ⟨h.name, h.span, ⟨⟨?_, ?_, ?_⟩, ?_, ?_, ?_⟩, by rw [hnames]; exact h.order, by simpa using h.ne, ?_⟩
+  · rw [hnames]; exact h.shape.nodup
+  · intro i hi
+    obtain ⟨i0, hi0, rfl⟩ := List.mem_map.1 hi
+    exact h.shape.canonical i0 hi0
   · intro i hi p hpm
     obtain ⟨i0, hi0, rfl⟩ := List.mem_map.1 hi
     simp only [cleanIT, List.mem_map] at hpm
